@@ -4,6 +4,7 @@
 -/
 import RV.Facts.Generated
 import RV.Model.Wire
+import RV.Facts.Expected
 open RV RV.Facts
 
 def natFacts : List (String × Nat × Nat) := [
@@ -16,7 +17,10 @@ def natFacts : List (String × Nat × Nat) := [
   ("attrValMax", Generated.attrValMax, maxAttrValue + 1),
   ("marshalMax", Generated.marshalMax, maxPacketLength + 1)]
 
-def listFacts : List (String × List Nat × List Nat) := []
+def listFacts : List (String × List Nat × List Nat) := [
+  ("encodeClass", Generated.encodeClass, Expected.encodeClass),
+  ("requestClass", Generated.requestClass, Expected.requestClass),
+  ("encodeClassOutOfRange", Generated.encodeClassOutOfRange, Expected.encodeClassOutOfRange)]
 
 def main : IO Unit := do
   for (n, g, e) in natFacts do
